@@ -16,8 +16,10 @@ import (
 	"encoding/json"
 	"fmt"
 	"io"
+	"os"
 	"reflect"
 	"sort"
+	"strconv"
 	"sync/atomic"
 	"time"
 
@@ -52,6 +54,35 @@ var (
 )
 
 const exhaustiveLen = 12
+
+// allOffsetsUpTo: inputs up to this many bytes get a fault at EVERY offset; longer ones (the large
+// size classes) at the offsets of faultOffsets.
+const allOffsetsUpTo = 12000
+
+// faultOffsets is the menu of failure offsets for a stream of n bytes: every offset for n <=
+// allOffsetsUpTo; otherwise the first and last 600 offsets and every offset from 8 below to 40 above a
+// multiple of 4096 (block boundaries of 4 KiB, 8 KiB, 32 KiB and 64 KiB buffers, counted from the start
+// of the stream or from the start of a payload behind a header of up to 40 bytes, all lie there).
+// fullProductAt: the whole product {EOF, injected} x {with the last bytes, on the next call} + a
+// transient failure, on both source kinds, is run at offset k of an n-byte stream when n <=
+// fullProductUpTo, in the first and last 600 offsets, and from 8 below to 40 above every multiple of
+// 512; the other offsets of a longer stream get an EOF on the next call and an injected error with the
+// last bytes, on the plain source.
+const fullProductUpTo = 4500
+
+func fullProductAt(n, k int) bool {
+	return n <= fullProductUpTo || k < 600 || k > n-600 || (k+8)%512 <= 48
+}
+
+func faultOffsets(n int) []int {
+	out := make([]int, 0, min(n+1, 4096))
+	for k := 0; k <= n; k++ {
+		if n <= allOffsetsUpTo || k < 600 || k > n-600 || (k+8)%4096 <= 48 {
+			out = append(out, k)
+		}
+	}
+	return out
+}
 
 // ---------------------------------------------------------------------------------------------
 // read side
@@ -123,11 +154,12 @@ func execRead(slot int, op *ReadOp, st []byte, cs *Case, c *engine.Chooser, altC
 		src = byteSrc{m}
 	}
 	var o obs
-	if wd != nil {
+	watched := wd != nil && slot >= 0 // slot < 0: a nested reference run inside a watched case
+	if watched {
 		wd.Begin(slot, func() string { b, _ := json.Marshal(cs); return string(b) })
 	}
 	o.kind, o.frame, o.panicked = engine.Guard(func() { o.val, o.n, o.err = op.Run(src) })
-	if wd != nil {
+	if watched {
 		wd.End(slot)
 	}
 	o.consumed, o.calls, o.devs, o.sizes, o.events = m.n, m.calls, m.devs, m.sizes, m.events
@@ -196,21 +228,19 @@ func prefixBaseline(op *ReadOp, st []byte) *baseline {
 
 // sameAs demands the result b of a contiguous run: value, reported count, bytes taken from the stream.
 func sameAs(b *baseline, o *obs, prefix string) (int, string, string) {
-	{
-		if o.err != nil {
-			return vViolation, prefix + "error-where-contiguous-run-succeeds", fmt.Sprintf("returned error %q; the contiguous run of the same operation on the same bytes succeeds", o.err)
-		}
-		if !reflect.DeepEqual(o.val, b.val) {
-			return vViolation, prefix + "value-differs", fmt.Sprintf("returned nil error and value %s; the contiguous run returns %s", show(o.val), show(b.val))
-		}
-		if b.n >= 0 && o.n != b.n {
-			return vViolation, prefix + "byte-count-differs", fmt.Sprintf("reported %d bytes; the contiguous run reports %d", o.n, b.n)
-		}
-		if o.consumed != b.consumed {
-			return vViolation, prefix + "residual-stream-differs", fmt.Sprintf("took %d bytes from the stream; the contiguous run takes %d", o.consumed, b.consumed)
-		}
-		return vOK, "", ""
+	if o.err != nil {
+		return vViolation, prefix + "error-where-contiguous-run-succeeds", fmt.Sprintf("returned error %q; the contiguous run of the same operation on the same bytes succeeds", o.err)
 	}
+	if !reflect.DeepEqual(o.val, b.val) {
+		return vViolation, prefix + "value-differs", fmt.Sprintf("returned nil error and value %s; the contiguous run returns %s", show(o.val), show(b.val))
+	}
+	if b.n >= 0 && o.n != b.n {
+		return vViolation, prefix + "byte-count-differs", fmt.Sprintf("reported %d bytes; the contiguous run reports %d", o.n, b.n)
+	}
+	if o.consumed != b.consumed {
+		return vViolation, prefix + "residual-stream-differs", fmt.Sprintf("took %d bytes from the stream; the contiguous run takes %d", o.consumed, b.consumed)
+	}
+	return vOK, "", ""
 }
 
 func show(v any) string {
@@ -247,7 +277,7 @@ func judgeRead(slot int, op *ReadOp, inp *Input, b *baseline, cs Case, c *engine
 		case cs.Style == 2:
 			rep.Count("unspecified/transient-error-ridden-out-with-complete-result/"+op.class(), 1)
 		case op.ToEOF:
-			rep.Count("unspecified/eof-delimited-value-ended-early/"+op.class(), 1)
+			rep.Count("unspecified/stream-ended-early-and-the-shorter-stream-is-not-a-value/"+op.class(), 1)
 		default:
 			rep.Count("unspecified/error-delivered-with-the-last-needed-bytes-was-reported/"+op.class(), 1)
 		}
@@ -256,12 +286,17 @@ func judgeRead(slot int, op *ReadOp, inp *Input, b *baseline, cs Case, c *engine
 	// name the site: same case, traced
 	ot := execRead(slot, op, st, &cs, nil, 0, true)
 	v2, clause2, _ := verdictRead(op, inp.Data, b, &cs, &ot)
-	if v2 != v || clause2 != clause {
-		engine.HarnessError("nondeterministic: case %+v judged %q then %q", cs, clause, clause2)
-	}
 	site := pickSite(ot.events)
 	if ot.panicked {
 		site = ot.frame
+	}
+	if v2 != v || clause2 != clause {
+		// The first execution really happened and really broke the oracle; the same bytes delivered in the
+		// same way now give another result, so the operation depends on state outside the stream (a pooled
+		// buffer's capacity decides how much a read-ahead takes, for instance). Still a violation; the site
+		// of the re-execution would be misleading.
+		site = "result-not-reproduced-on-re-execution"
+		rep.Count("violations_not_reproduced_on_the_traced_re-execution_(operation_depends_on_process_state)", 1)
 	}
 	class := "read/" + op.class() + "/" + clause + "/" + site
 	size := len(inp.Data)*100000 + (len(cs.Cuts)+len(cs.Sizes))*100 + cs.K
@@ -296,6 +331,9 @@ func describe(cs *Case) string {
 	case "wfault":
 		if cs.Style == 1 {
 			return fmt.Sprintf("writer accepting %d bytes, failing the Write that crosses that offset, and accepting everything afterwards", cs.K)
+		}
+		if cs.Style == 2 {
+			return fmt.Sprintf("writer whose Write that brings the total to %d bytes takes all of its bytes and returns an error with them", cs.K)
 		}
 		return fmt.Sprintf("writer accepting %d bytes and then failing", cs.K)
 	}
@@ -332,6 +370,29 @@ func makeBaseline(op *ReadOp, inp *Input) (*baseline, string) {
 		rep.Count("baseline_reported_count_differs_from_consumed", 1)
 	}
 	return &baseline{o.val, o.n, o.consumed}, ""
+}
+
+// judgeContiguous looks at an input whose contiguous run fails. When the same bytes delivered one per
+// Read are read successfully, the result depends on how the stream delivers its bytes (first sentence
+// of the statement): a violation. Otherwise the input is simply not a value of the operation.
+func judgeContiguous(op *ReadOp, inp *Input, why string) bool {
+	st := stream(op, inp.Data)
+	ones := make([]int, len(st))
+	for i := range ones {
+		ones[i] = 1
+	}
+	cs := Case{Side: "read", Op: op.Name, Input: inp.ID, Source: "plain", Mode: "reads", Sizes: ones}
+	o := execRead(0, op, st, &cs, nil, 0, false)
+	rep.Eval(1)
+	if o.panicked || o.err != nil {
+		return false
+	}
+	rep.FailLazy("read/"+op.class()+"/short-reads/contiguous-run-fails-where-one-byte-per-read-succeeds", len(inp.Data), func() engine.Failure {
+		return engine.Failure{Detail: fmt.Sprintf("%s on input %q (%d bytes): the contiguous run fails (%s), yet the same stream delivered one byte per Read is read successfully (value %s, %d bytes taken)",
+			op.Name, inp.ID, len(inp.Data), why, show(o.val), o.consumed),
+			Case: Case{Side: "read", Op: op.Name, Input: inp.ID, Hex: hex.EncodeToString(inp.Data), Source: "plain", Mode: "contiguous-vs-bytewise"}}
+	})
+	return true
 }
 
 func sources(op *ReadOp) []string {
@@ -390,8 +451,13 @@ func exploreRead(slot int, op *ReadOp, inp *Input, b *baseline, bound int) {
 				probe = Case{Mode: "choice", Source: src}
 				execRead(slot, op, st, &probe, c, altCap, false)
 			})
+			// the budget counts executions of a 2000-byte input; longer inputs get proportionally fewer
+			bud := budget
+			if len(data) > 2000 {
+				bud = budget * 2000 / int64(len(data))
+			}
 			bnd := 1
-			for bnd < bound && estimate(st0.PrunedByBnd, bnd+1) <= budget {
+			for bnd < bound && estimate(st0.PrunedByBnd, bnd+1) <= bud {
 				bnd++
 			}
 			rep.Count(fmt.Sprintf("long_inputs_walked_to_short_read_bound_%d_(pairs_x_sources)", bnd), 1)
@@ -424,7 +490,16 @@ func exploreRead(slot int, op *ReadOp, inp *Input, b *baseline, bound int) {
 		if len(data) > 96 {
 			frags = frags[:1]
 		}
-		for k := 0; k <= len(st); k++ {
+		for _, k := range faultOffsets(len(st)) {
+			if !fullProductAt(len(st), k) {
+				// long inputs, away from the stream ends and from block boundaries: the two basic failures
+				if src == "plain" {
+					judgeRead(slot, op, inp, b, Case{Side: "read", Op: op.Name, Input: inp.ID, Source: src, Mode: "fault", K: k, Err: "eof", Style: 1}, nil, 0)
+					judgeRead(slot, op, inp, b, Case{Side: "read", Op: op.Name, Input: inp.ID, Source: src, Mode: "fault", K: k, Err: "injected", Style: 0}, nil, 0)
+					execs += 2
+				}
+				continue
+			}
 			for _, e := range []string{"eof", "injected"} {
 				for style := 0; style <= 1; style++ {
 					for _, frag := range frags {
@@ -451,6 +526,7 @@ type wobs struct {
 	out      []byte
 	calls    int
 	after    int
+	failed   bool // some Write returned an error
 	site     string
 	panicked bool
 	kind     string
@@ -460,9 +536,12 @@ type wobs struct {
 func execWrite(slot int, in *WInput, k int, trace bool, cs *Case) wobs {
 	fw := &engine.FaultWriter{K: k, Err: engine.ErrInjected}
 	fl := &flakyWriter{k: k, err: engine.ErrInjected}
+	lw := &lateWriter{k: k, err: engine.ErrInjected}
 	m := &wmeter{w: fw, trace: trace}
 	if cs.Style == 1 {
 		m.w = fl
+	} else if cs.Style == 2 {
+		m.w = lw
 	}
 	var o wobs
 	if wd != nil {
@@ -475,7 +554,10 @@ func execWrite(slot int, in *WInput, k int, trace bool, cs *Case) wobs {
 	o.out, o.calls, o.after, o.site = fw.Buf, m.calls, m.after, m.site
 	if cs.Style == 1 {
 		o.out = fl.buf
+	} else if cs.Style == 2 {
+		o.out = lw.buf
 	}
+	o.failed = m.fails > 0
 	return o
 }
 
@@ -488,7 +570,15 @@ func verdictWrite(b *wbaseline, k, style int, o *wobs) (int, string, string) {
 	if o.panicked {
 		return vViolation, "panic/" + o.kind, fmt.Sprintf("panic %s in %s", o.kind, o.frame)
 	}
-	if k < len(b.out) {
+	if style == 2 {
+		// every byte was taken, so there is no offset arithmetic: a Write returned an error, the operation must too
+		if o.failed && o.err == nil {
+			return vViolation, "io-failure-swallowed", fmt.Sprintf("a Write took all of its bytes but returned an error (total %d of the %d bytes the operation produces), yet the operation returned nil error", k, len(b.out))
+		}
+		if o.failed {
+			return vOK, "", ""
+		}
+	} else if k < len(b.out) {
 		if o.err == nil && style == 1 && bytes.Equal(o.out, b.out) {
 			// the operation re-sent what the failing Write had not accepted: nothing is missing
 			return vUnspec, "", ""
@@ -521,7 +611,7 @@ func judgeWrite(slot int, op *WriteOp, in *WInput, b *wbaseline, k, style int) i
 	cs := Case{Side: "write", Op: op.Name, Input: in.ID, Mode: "wfault", K: k, Style: style}
 	o := execWrite(slot, in, k, false, &cs)
 	atomic.AddInt64(&cntCalls, int64(o.calls))
-	if k < len(b.out) {
+	if k < len(b.out) || o.failed {
 		atomic.AddInt64(&cntNonTrivial, 1)
 	}
 	if o.after > 0 {
@@ -578,21 +668,31 @@ type writeTask struct {
 	base *wbaseline
 }
 
+// sizeClasses is the menu of payload sizes (bytes) added on top of the hand-picked inputs.
+func sizeClasses() []int {
+	if rep.Thorough() || rep.ReplayPath != "" { // a replay must find every value by name
+		return []int{600, 5000, 9000, 40000, 70000}
+	}
+	return []int{600, 5000}
+}
+
 func allReadOps(genNodes int) ([]*ReadOp, int) {
-	ops := wireReadOps()
-	n, nGen := nbtReadOps(genNodes)
+	ops := append(wireReadOps(), sessionReadOps()...)
+	n, nGen := nbtReadOps(genNodes, sizeClasses(), rep.Thorough())
 	return append(ops, n...), nGen
 }
 
-func allWriteOps() []*WriteOp { return append(wireWriteOps(), nbtWriteOps()...) }
+func allWriteOps() []*WriteOp {
+	return append(append(wireWriteOps(), sessionWriteOps()...), nbtWriteOps()...)
+}
 
 func main() {
 	rep = engine.NewReport("C09")
 	rep.Rule = "case = (operation, input, source kind {plain io.Reader, io.Reader+io.ByteReader}, environment). Environments per (operation, input): " +
 		"inputs <= 12 bytes: every set of segment boundaries inside the input x {boundary, no boundary} between input and sentinel tail (2^n; a Read returns min(asked, rest of segment) — this is every behaviour of a legal reader); " +
-		"longer inputs: every placement of <= b short reads (each shorter legal count is one deviation; for inputs > 96 bytes only the 4 smallest and 4 largest shorter counts per Read), b = the largest bound <= B whose estimated walk fits the per-pair budget (at least 1; see counters long_inputs_walked_to_short_read_bound_*), plus chunkings of at most 1,2,3,5,7 bytes per Read; " +
-		"faults: every offset k in 0..len(input+tail) x {io.EOF, injected} x {error with the last bytes, error on the next call} x {contiguous, 1 byte per Read (inputs <= 96 bytes)}; " +
-		"plus one transient failure (a single failing call at offset k, then the stream carries on) at every k; writers: for every k in 0..len(output) a writer that fails from offset k on and a writer that fails only the Write crossing offset k. Cases are distinct by construction (nested loops / distinct choice tapes); " +
+		"longer inputs: every placement of <= b short reads (each shorter legal count is one deviation; for inputs > 96 bytes only the 4 smallest and 4 largest shorter counts per Read), b = the largest bound <= B whose estimated walk fits the per-pair budget (budget x 2000/len for inputs > 2000 bytes; at least 1; see counters long_inputs_walked_to_short_read_bound_*), plus chunkings of at most 1,2,3,5,7 bytes per Read; " +
+		"faults (streams longer than 4500 bytes: the full product only in the first and last 600 offsets and from 8 below to 40 above every multiple of 512, elsewhere {EOF on the next call, injected with the last bytes} on the plain source): every offset k in 0..len(input+tail) (streams longer than 12000 bytes: the first and last 600 offsets and every offset from 8 below to 40 above a multiple of 4096) x {io.EOF, injected} x {error with the last bytes, error on the next call} x {contiguous, 1 byte per Read (inputs <= 96 bytes)}; " +
+		"plus one transient failure (a single failing call at offset k, then the stream carries on) at every k; writers: for every k in 0..len(output) (outputs longer than 12000 bytes: the offsets of the reader menu) a writer that fails from offset k on, a writer that fails only the Write crossing offset k, and a writer whose Write reaching a total of k bytes takes all its bytes and returns an error with them. Cases are distinct by construction (nested loops / distinct choice tapes); " +
 		"non-trivial = the environment actually deviated during the operation (some Read returned fewer bytes than asked or an error; writer failure inside the output)"
 	wd = engine.NewWatchdog(engine.Workers()+1, 30*time.Second, func(desc string) {
 		var c Case
@@ -608,6 +708,12 @@ func main() {
 		bound, genNodes = 3, 3
 		budget = 3_000_000
 		deadline = time.Now().Add(13 * time.Minute)
+	}
+	// VERIF_DEADLINE_SCALE=<n> stretches the internal wall-clock deadline (a machine shared with other
+	// jobs); it changes nothing in what is enumerated and is recorded in the evidence
+	if sc, err := strconv.Atoi(os.Getenv("VERIF_DEADLINE_SCALE")); err == nil && sc > 1 {
+		deadline = time.Now().Add(time.Until(deadline) * time.Duration(sc))
+		rep.Extra("deadline_scale_(VERIF_DEADLINE_SCALE)", sc)
 	}
 	if rep.ReplayPath != "" {
 		replay(genNodes)
@@ -634,6 +740,11 @@ func main() {
 			}
 			ids[inp.ID] = true
 			b, why := makeBaseline(op, inp)
+			if b == nil && judgeContiguous(op, inp, why) {
+				rep.Count("pairs_whose_contiguous_run_fails_while_one_byte_per_read_succeeds_(violation)", 1)
+				usable++
+				continue
+			}
 			if b == nil {
 				if inp.Optional {
 					cntSkippedOptional++
@@ -667,11 +778,13 @@ func main() {
 	// ---- write side
 	engine.ParallelFor(len(wtasks), func(slot, i int) {
 		t := wtasks[i]
-		for k := 0; k <= len(t.base.out); k++ {
+		ks := faultOffsets(len(t.base.out))
+		for _, k := range ks {
 			judgeWrite(slot, t.op, t.in, t.base, k, 0)
 			judgeWrite(slot, t.op, t.in, t.base, k, 1)
+			judgeWrite(slot, t.op, t.in, t.base, k, 2)
 		}
-		n := int64(2 * (len(t.base.out) + 1))
+		n := int64(3 * len(ks))
 		atomic.AddInt64(&cntWriteExec, n)
 		rep.Eval(n)
 	})
@@ -868,6 +981,13 @@ func replay(genNodes int) {
 		}
 		inp := &Input{ID: c.Input, Data: data}
 		b, why := makeBaseline(op, inp)
+		if c.Mode == "contiguous-vs-bytewise" {
+			fmt.Printf("replaying %s on %x: contiguous run against one byte per Read; contiguous run: %s\n", c.Op, clipB(data), map[bool]string{true: "succeeds", false: why}[b != nil])
+			for j := 0; j < 5 && b == nil; j++ {
+				judgeContiguous(op, inp, why)
+			}
+			rep.Finish()
+		}
 		if b == nil {
 			engine.HarnessError("replay: contiguous run fails: %s", why)
 		}
